@@ -52,7 +52,9 @@ Spec == Init /\ [][Next]_vars
 
 NoRace == \A p, q \in Procs : (p # q /\ pc[p] = "running" /\ pc[q] = "running")
                                 => ~Conflict(cur[p][1], cur[p][2], cur[q][1], cur[q][2])
+\* (the reference to pc only makes this a state-level formula: TLC refuses to continue past a constant-level FALSE invariant)
 StaticObligation ==
+  pc \in [Procs -> {"idle", "running", "done"}] =>
   \A s \in Static : LET w == M[s].w IN
      /\ ~(w.kind = "global" /\ ~w.ininit /\ ~w.guard)
      /\ w.kind # "codecfield"
